@@ -2932,6 +2932,9 @@ class Set(Collection):
                 arguments = adapter(items)
                 cursor = database._exec_sql(sql, arguments)
                 items = rentity._fetch_objects(cursor, attr_offsets)
+                if reverse.lazy:  # the rows above do not carry a lazy reference: load it, this is what links the item to the collection
+                    for item in items:
+                        if reverse not in item._vals_: reverse.load(item)
                 return setdata
 
             sql, adapter = attr.construct_sql_m2m(1, len(items))
@@ -3390,7 +3393,7 @@ class SetInstance(object):
                 where_list.append([ converter.EQ, [ 'COLUMN', None, column ], [ 'PARAM', (i, None, None), converter ] ])
             if not reverse.is_collection:
                 table_name = rentity._table_
-                select_list, attr_offsets = rentity._construct_select_clause_()
+                select_list, attr_offsets = rentity._construct_select_clause_(query_attrs=(reverse,))
             else:
                 table_name = attr.table
                 columns = attr.reverse_columns if attr.symmetric else attr.columns
@@ -4286,7 +4289,10 @@ class EntityMeta(type):
         query_key = batch_size, attr, from_seeds, attrs_to_prefetch
         cached_sql = entity._batchload_sql_cache_.get(query_key)
         if cached_sql is not None: return cached_sql
-        select_list, attr_offsets = entity._construct_select_clause_(all_attributes=True)
+        # when the rows are selected by a reference attribute, that attribute must be in the row even if it is lazy:
+        # _db_set_ links each fetched row to the collection being loaded through it
+        select_list, attr_offsets = entity._construct_select_clause_(
+            all_attributes=True, query_attrs=() if attr is None else (attr,))
         from_list = [ 'FROM', [ None, 'TABLE', entity._table_ ]]
         if attr is None:
             columns = entity._pk_columns_
